@@ -124,6 +124,22 @@ def run(chk, replay=None):
             chk.violation({"class": "not-opaque", "what": "%s %s: %s || %s" % (role, info, x[:120], text[:200])},
                           {"cmd": "core", "line": ln, "original": g.text, "variant": text, "role": role, "renaming": info, "implementation": x[:600], "expected": bx[:200],
                            "broken": "a consistently renamed / alias-inlined / re-laid-out program is rejected or compiles to a different program"})
+    # ---- parentheses are layout in constant contexts too (witness / param modules, value texts)
+    consts = [("u8", "5"), ("(u8, u8)", "(5, 7)"), ("Option<u8>", "Some(5)"), ("Either<u8, bool>", "Left(5)"), ("[u8; 2]", "[1, 2]"), ("List<u8, 4>", "list![1, 2, 3]"),
+              ("bool", "true"), ("u16", "0x00ff"), ("Option<(u8, bool)>", "Some((1, false))")]
+    plines = []
+    for ty, v in consts:
+        wrapped = [v, "(%s)" % v, "((%s))" % v, re.sub(r"\b(\d+|true|false)\b", r"(\1)", v), "( %s )" % re.sub(r"\b(\d+|true|false)\b", r"((\1))", v)]
+        for w in wrapped:
+            plines.append((ty, v, w, "(entry witmod %s)" % quote("mod witness { const A: %s = %s; }" % (ty, w))))
+            plines.append((ty, v, w, "(entry argmod %s)" % quote("mod param { const A: %s = %s; }" % (ty, w))))
+            plines.append((ty, v, w, "(entry witjson %s)" % quote('{"A":{"value":"%s","type":"%s"}}' % (w, ty))))
+    for (ty, v, w, ln), x in zip(plines, impl("total", [l[3] for l in plines])):
+        chk.case(ln, sample={"type": ty, "constant": w, "outcome": x})
+        chk.count("const-paren.%s" % x.split(" ")[0][:5])
+        if x != "ok":
+            chk.violation({"class": "not-opaque", "what": "constant %s of type %s written as %s: %s" % (v, ty, w, x[:80])},
+                          {"cmd": "total", "line": ln, "implementation": x, "expected": "ok", "broken": "redundant parentheses around (part of) a constant change its acceptance"})
     chk.extra["rule"] = ("identifiers: every reserved word of the regenerated grammar extended by a letter, digit, underscore, underscore+letter, plus case variants and random identifiers, "
                          "in each naming role (function, alias, identifier, witness, expression, pattern, type, call, let, witness::, param::, type alias, fn definition): PEG model vs real pest pair trees; "
                          "generated programs: consistent renaming per role and of all roles at once, alias inlining, re-layout (comments, CRLF): acceptance and (CMR, encoding) must equal the original's")
